@@ -35,6 +35,9 @@ macro_rules! vtry { ($e:expr) => { match $e { Ok(v) => v, Err(e) => { return Pol
 // R2 for fns returning Poll<Result<_,_>>
 #[allow(unused_macros)]
 macro_rules! vtry_r { ($e:expr) => { match $e { Ok(v) => v, Err(e) => { return Poll::Ready(Err(e)); } } } }
+// R2 with the error conversion of `?` (From::from on the error), for fns returning Poll<Result<_, BoxError>>
+#[allow(unused_macros)]
+macro_rules! vtry_box { ($e:expr) => { match $e { Ok(v) => v, Err(e) => { return Poll::Ready(Err(e.into())); } } } }
 verus! {
 // A-target-01: usize is 64 bits (x86_64 / aarch64 targets)
 global size_of usize == 8;
